@@ -118,6 +118,14 @@ func Mutate(w *Wire, recipe string, n int) {
 		w.Encoding = "br"
 	case "deepnest":
 		w.Body = []byte(strings.Repeat("[", 1000+n%4000))
+	case "longline":
+		// one line beyond what a line scanner buffers (10 MiB), followed by an ordinary one
+		// (mostly 70 KiB - beyond bufio.Scanner's default - and now and then 11 MiB, which costs seconds of CPU)
+		size := 70 << 10
+		if n%8 == 0 {
+			size = 11 << 20
+		}
+		w.Body = append(append([]byte(`{"index":{}}`+"\n"+`{"message":"`), bytes.Repeat([]byte("x"), size)...), []byte(`"}`+"\n"+`{"index":{}}`+"\n"+`{"message":"tail"}`+"\n")...)
 	case "wrong-content-type":
 		cts := []string{"application/json", "application/x-protobuf", "ndjson", "multipart/form-data; boundary=x", "binary/octet-stream", "", "text/plain"}
 		w.ContentType = cts[n%len(cts)]
